@@ -295,7 +295,13 @@ func c39(c *engine.Ctx, pkg string) {
 			continue
 		}
 		// slice arm: depends on the length of this arm's list; an empty page ends
-		cmp, isCmp := val.(*ssa.BinOp)
+		// the comparison is read in canonical form: the page length on the left
+		// ("0 == len(x)" is "len(x) == 0", "limit > len(x)" is "len(x) < limit")
+		var cmp engine.Cmp
+		isCmp := false
+		if raw, isBin := val.(*ssa.BinOp); isBin {
+			cmp, isCmp = engine.CmpOf(raw)
+		}
 		list := "Messages"
 		if tag == "dialogs" {
 			list = "Dialogs"
@@ -312,7 +318,10 @@ func c39(c *engine.Ctx, pkg string) {
 			fa, isFA := ld.X.(*ssa.FieldAddr)
 			return isFA && engine.FieldNameOf(fa) == list && engine.Unwrap(fa.X) == arm.val
 		}
-		okDep := isCmp && (lenOfArm(cmp.X) || lenOfArm(cmp.Y))
+		if isCmp && !lenOfArm(cmp.X) && lenOfArm(cmp.Y) {
+			cmp = cmp.Swap()
+		}
+		okDep := isCmp && lenOfArm(cmp.X)
 		if !okDep {
 			// the decision may be delegated to a helper: it still has to be
 			// computed from the length of this arm's list
@@ -551,8 +560,15 @@ func c39RangeIndex(idx ssa.Value, list ssa.Value) (bool, string) {
 		if !ok {
 			continue
 		}
-		cmp, isC := iff.Cond.(*ssa.BinOp)
-		if !isC || cmp.Op != token.LSS {
+		raw, isC := iff.Cond.(*ssa.BinOp)
+		if !isC {
+			continue
+		}
+		cmp, _ := engine.CmpOf(raw)
+		if cmp.Op == token.GTR { // len(list) > i is i < len(list)
+			cmp = cmp.Swap()
+		}
+		if cmp.Op != token.LSS {
 			continue
 		}
 		lc := engine.CallOf(cmp.Y)
